@@ -210,7 +210,13 @@ func (fv *FuncVerifier) trackReslice(st *State, env *Env, x *ast.AssignStmt) {
 		switch r := ast.Unparen(x.Rhs[i]).(type) {
 		case *ast.SliceExpr:
 			if t := fv.typeOf(env, r.X); t != nil && !r.Slice3 {
-				if _, isSl := t.Underlying().(*types.Slice); isSl && fv.sharedSliceExpr(st, env, r.X) {
+				// (a reslice of a variable that is itself remembered as an alias stays an alias - also after the
+				// variable was havocked at a loop head: x = x[1:] inside a loop)
+				markedSrc := false
+				if sid, ok := ast.Unparen(r.X).(*ast.Ident); ok {
+					_, markedSrc = st.resliced[env.info.ObjectOf(sid)]
+				}
+				if _, isSl := t.Underlying().(*types.Slice); isSl && (markedSrc || fv.sharedSliceExpr(st, env, r.X)) {
 					saveObls := len(fv.obls)
 					base := fv.eval(st, env, r.X)
 					hi := fv.w.SeqLen(base)
@@ -229,8 +235,27 @@ func (fv *FuncVerifier) trackReslice(st *State, env *Env, x *ast.AssignStmt) {
 					continue // x = append(x, ...): still backed by the same array (while capacity lasts)
 				}
 			}
+			if fn, ok := calleeOf(env.info, r).(*types.Func); ok && inPlaceSliceMutators[fn.FullName()] && len(r.Args) > 0 {
+				if a0, ok := ast.Unparen(r.Args[0]).(*ast.Ident); ok && env.info.ObjectOf(a0) == o {
+					continue // x = slices.Insert(x, ...) and the like: same backing array; the call itself is guarded (S.alias-mutate)
+				}
+			}
 			delete(st.resliced, o)
 		default:
+			// plain alias `x := p.field` / `x := param` of a slice this function does not own: x IS that slice
+			if t := fv.typeOf(env, x.Rhs[i]); t != nil {
+				if _, isSl := t.Underlying().(*types.Slice); isSl && fv.sharedSliceExpr(st, env, x.Rhs[i]) {
+					if _, isCall := ast.Unparen(x.Rhs[i]).(*ast.CallExpr); !isCall {
+						saveObls := len(fv.obls)
+						base := fv.eval(st, env, x.Rhs[i])
+						fv.obls = fv.obls[:saveObls]
+						if fv.w.IsSeq(base.Sort) {
+							st.resliced[o] = [2]Term{base, fv.w.SeqLen(base)}
+							continue
+						}
+					}
+				}
+			}
 			delete(st.resliced, o)
 		}
 	}
@@ -1617,6 +1642,28 @@ func (fv *FuncVerifier) execFor(st *State, env *Env, x *ast.ForStmt, label strin
 			}
 		}
 	}
+	// monotone counter `for i := e0; ...; i++` (or i--) whose body does not assign i: i never drops below (rises
+	// above) its initial value - an engine-supplied fact, like the range facts of the canonical index loop
+	var ctrObj types.Object
+	var ctrInit Term
+	ctrUp := true
+	if as, ok := x.Init.(*ast.AssignStmt); ok && as.Tok == token.DEFINE && len(as.Lhs) == 1 && len(as.Rhs) == 1 {
+		if id, ok := as.Lhs[0].(*ast.Ident); ok {
+			if o := env.info.Defs[id]; o != nil {
+				if inc, ok := x.Post.(*ast.IncDecStmt); ok {
+					if pid, ok := ast.Unparen(inc.X).(*ast.Ident); ok && env.info.ObjectOf(pid) == o {
+						if b, isB := o.Type().Underlying().(*types.Basic); isB && b.Info()&types.IsInteger != 0 {
+							if bw := fv.loopWrites(env, x.Body); !bw.vars[o] {
+								if v, has := st.vars[o]; has {
+									ctrObj, ctrInit, ctrUp = o, v, inc.Tok == token.INC
+								}
+							}
+						}
+					}
+				}
+			}
+		}
+	}
 	itName, xsName := fmt.Sprintf("it%d", lc.ord), fmt.Sprintf("xs%d", lc.ord)
 	return fv.runLoopR(st, env, lc, label, ws,
 		func(st *State) {},
@@ -1625,6 +1672,9 @@ func (fv *FuncVerifier) execFor(st *State, env *Env, x *ast.ForStmt, label strin
 				if v, ok := st.vars[idxObj]; ok {
 					lc.names[itName] = v
 					lc.names[xsName] = idxSeq
+					// (visible to the clauses of nested loops too, like the ghosts of a range loop)
+					st.ghost[itName] = v
+					st.ghost[xsName] = idxSeq
 				}
 			}
 		},
@@ -1650,12 +1700,22 @@ func (fv *FuncVerifier) execFor(st *State, env *Env, x *ast.ForStmt, label strin
 			return res
 		},
 		func(st *State) []Term {
-			if idxObj != nil {
-				if v, ok := st.vars[idxObj]; ok {
-					return []Term{Le(IntLit(0), v), Le(v, fv.w.SeqLen(idxSeq))}
+			var facts []Term
+			if ctrObj != nil {
+				if v, ok := st.vars[ctrObj]; ok {
+					if ctrUp {
+						facts = append(facts, Le(ctrInit, v))
+					} else {
+						facts = append(facts, Le(v, ctrInit))
+					}
 				}
 			}
-			return nil
+			if idxObj != nil {
+				if v, ok := st.vars[idxObj]; ok {
+					facts = append(facts, Le(IntLit(0), v), Le(v, fv.w.SeqLen(idxSeq)))
+				}
+			}
+			return facts
 		})
 }
 
@@ -1879,7 +1939,11 @@ func (fv *FuncVerifier) execRangeFunc(st *State, env *Env, x *ast.RangeStmt, lab
 	}
 	if !iter.pure {
 		// iterating may have side effects of its own
-		ws.heapAll = true
+		if iter.hasPres {
+			ws.havocAllWith(iter.presPfx, iter.presExc)
+		} else {
+			ws.heapAll = true
+		}
 	}
 	st.ghost[itName] = IntLit(0)
 	getIt := func(st *State) Term { return st.ghost[itName] }
@@ -1927,6 +1991,51 @@ type iterInfo struct {
 	ys2      Term
 	pure     bool
 	contract bool // yielded / yielded2 of val are pinned down by a /repo contract
+	// running the iterator has effects, but preserves these heap fields (frame of the /repo function that returned it)
+	hasPres bool
+	presPfx string
+	presExc []string
+}
+
+// returnsFramedIterators: every result expression of fi is a function literal or a call of a /repo function under
+// contract with the same `preserves` frame (trusted ones included: their frame is a listed assumption).
+func (fv *FuncVerifier) returnsFramedIterators(fi *FuncInfo, pfx string) bool {
+	if fi.Decl.Body == nil {
+		return false
+	}
+	if fi.Contr.Has("trusted", 0) {
+		return true
+	}
+	ok := true
+	info := fi.Pkg.TypesInfo
+	ast.Inspect(fi.Decl.Body, func(n ast.Node) bool {
+		switch x := n.(type) {
+		case *ast.FuncLit:
+			return false
+		case *ast.ReturnStmt:
+			for _, e := range x.Results {
+				switch y := ast.Unparen(e).(type) {
+				case *ast.FuncLit:
+				case *ast.CallExpr:
+					good := false
+					if fn, isFn := calleeOf(info, y).(*types.Func); isFn {
+						if cfi, has := fv.prog.ByObj[fn.Origin()]; has && cfi.Contr != nil {
+							if p2, _ := preservesOf(cfi.Contr); p2 == pfx {
+								good = true
+							}
+						}
+					}
+					if !good {
+						ok = false
+					}
+				default:
+					ok = false
+				}
+			}
+		}
+		return true
+	})
+	return ok
 }
 
 // evalIterator evaluates the ranged function expression and reports what is known about what it yields.
@@ -1945,6 +2054,17 @@ func (fv *FuncVerifier) evalIterator(st *State, env *Env, e ast.Expr) iterInfo {
 			if fi, ok := fv.prog.ByObj[fn.Origin()]; ok && fi.Contr != nil && (fi.Contr.Has("yields", 0) || (returnedLit(fv, fi) > 0 && fi.Contr.Has("yields", returnedLit(fv, fi)))) {
 				v := fv.evalCall(st, env, call)
 				return iterInfo{val: v[0], pure: true, contract: true}
+			}
+			// an iterator handed out by a /repo function whose contract has a `preserves` frame, and which returns
+			// only literals (on which that frame is proved as units) or iterators of functions with the same frame:
+			// running it respects the frame
+			if fi, ok := fv.prog.ByObj[fn.Origin()]; ok && fi.Contr != nil {
+				if pfx, exc := preservesOf(fi.Contr); pfx != "" && fv.returnsFramedIterators(fi, pfx) {
+					v := fv.evalCall(st, env, call)
+					fv.nondet = append(fv.nondet, "range over iterator of "+fi.Key)
+					fv.note("range over the iterator returned by %s at %s: yielded values unconstrained, running it preserves what the contract of %s preserves", fi.Key, fv.pos(e.Pos()), fi.Key)
+					return iterInfo{val: v[0], pure: false, hasPres: true, presPfx: pfx, presExc: exc}
+				}
 			}
 		}
 	}
